@@ -32,6 +32,8 @@ package wire
 //@ fieldinv ProviderSet.srcMap v != nil ==> wfSrcMap(v)
 //@ fieldinv ProviderSet.providerMap v != nil ==> wfProvMap(v)
 
+//@ globalinv cleanupType v != nil
+//@ globalinv errorType v != nil
 //@ fieldinv gen.pkg v != nil
 //@ fieldinv gen.imports v != nil
 //@ fieldinv gen.anonImports v != nil
@@ -259,7 +261,7 @@ package wire
 //@ define okSig(sig *types.Signature) = sig.Results().Len() == 1 || (sig.Results().Len() == 2 && (isErrT(sig.Results().At(1).Type()) || isFnT(sig.Results().At(1).Type()))) || (sig.Results().Len() == 3 && isFnT(sig.Results().At(1).Type()) && isErrT(sig.Results().At(2).Type()))
 //@ define sigCleanup(sig *types.Signature) = (sig.Results().Len() == 2 && !isErrT(sig.Results().At(1).Type()) && isFnT(sig.Results().At(1).Type())) || sig.Results().Len() == 3
 //@ define sigErr(sig *types.Signature) = (sig.Results().Len() == 2 && isErrT(sig.Results().At(1).Type())) || sig.Results().Len() == 3
-//@ define wfCalls(calls []call, n int) = forall k :: 0 <= k && k < len(calls) ==> 0 <= calls[k].kind && calls[k].kind <= 3 && calls[k].out != nil && (calls[k].kind <= 1 ==> calls[k].pkg != nil) && (calls[k].kind == 1 ==> len(calls[k].fieldNames) == len(calls[k].args)) && (calls[k].kind == 3 ==> len(calls[k].args) >= 1) && (forall j :: 0 <= j && j < len(calls[k].args) ==> 0 <= calls[k].args[j] && calls[k].args[j] < n + k)
+//@ define wfCalls(calls []call, n int) = forall k :: 0 <= k && k < len(calls) ==> 0 <= calls[k].kind && calls[k].kind <= 3 && calls[k].out != nil && (calls[k].kind <= 1 ==> calls[k].pkg != nil) && (calls[k].kind == 1 ==> len(calls[k].fieldNames) == len(calls[k].args)) && (calls[k].kind == 3 ==> len(calls[k].args) >= 1) && (calls[k].kind == 2 ==> calls[k].valueTypeInfo != nil && calls[k].valueExpr != nil) && (forall j :: 0 <= j && j < len(calls[k].args) ==> 0 <= calls[k].args[j] && calls[k].args[j] < n + k)
 //@ define distinctNames(names []string) = forall a, b :: 0 <= a && a < b && b < len(names) ==> names[a] != names[b]
 
 //@ func (*injectorGen).structProviderCall
@@ -279,6 +281,7 @@ package wire
 //@   nullable doc
 //@   requires okSig(sig) && len(ig.paramNames) == 0 && len(ig.localNames) == 0 && len(ig.cleanupNames) == 0
 //@   requires wfCalls(calls, sig.Params().Len())
+//@   requires [C09] forall k :: 0 <= k && k < len(calls) ==> (calls[k].hasCleanup ==> sigCleanup(sig)) && (calls[k].hasErr ==> sigErr(sig))
 //@   requires len(calls) == 0 ==> set.providerMap != nil && TMD[set.providerMap][tid(sig.Results().At(0).Type())] && TMV[set.providerMap][tid(sig.Results().At(0).Type())].(*ProvidedType).a != nil && 0 <= TMV[set.providerMap][tid(sig.Results().At(0).Type())].(*ProvidedType).a.Index && TMV[set.providerMap][tid(sig.Results().At(0).Type())].(*ProvidedType).a.Index < sig.Params().Len()
 //@   modifies ig.paramNames, ig.localNames, ig.cleanupNames, OUTLEN[&ig.g.buf], OUTEV[&ig.g.buf], mapof(ig.g.imports)
 //@   ensures [C04] ig.discard ==> OUTLEN[&ig.g.buf] == old(OUTLEN[&ig.g.buf])
@@ -301,3 +304,23 @@ package wire
 //@   loop 4 invariant [C04,C14] distinctNames(ig.cleanupNames)
 //@   loop 4 invariant [C04] !ig.discard ==> OUTEV[&ig.g.buf][OUTLEN[&ig.g.buf] - (len(ig.cleanupNames) - i)] == ev(", func() {\n")
 //@   loop 4 invariant [C04] !ig.discard ==> forall j :: i < j && j < len(ig.cleanupNames) ==> OUTEV[&ig.g.buf][OUTLEN[&ig.g.buf] - (j - i)] == ev("\t\t%s()\n", ig.cleanupNames[j])
+
+// ---------------------------------------------------------------------------
+// analyze.go: solve (contract used by inject and Load; the body is under verification separately)
+// ---------------------------------------------------------------------------
+
+//@ define argEntry(set *ProviderSet, t types.Type, n int) = set.providerMap != nil && TMD[set.providerMap][tid(t)] && TMV[set.providerMap][tid(t)].(*ProvidedType).a != nil && 0 <= TMV[set.providerMap][tid(t)].(*ProvidedType).a.Index && TMV[set.providerMap][tid(t)].(*ProvidedType).a.Index < n
+
+//@ func solve
+//@   requires out != nil
+//@   modifies nothing
+//@   ensures len(result.1) > 0 ==> len(result.0) == 0
+//@   ensures len(result.1) == 0 ==> wfCalls(result.0, given.Len())
+//@   ensures len(result.1) == 0 && len(result.0) == 0 ==> argEntry(set, out, given.Len())
+
+//@ func (*gen).inject
+//@   nullable doc
+//@   loop 1 invariant ec != nil
+//@   loop 1 invariant forall k :: 0 <= k && k < len(pendingVars) ==> pendingVars[k].typeInfo != nil && pendingVars[k].expr != nil
+//@   loop 1 invariant [C09] len(ec.errors) == 0 ==> forall k :: 0 <= k && k < done ==> (calls[k].hasCleanup ==> injectSig.cleanup) && (calls[k].hasErr ==> injectSig.err)
+//@   props C09
